@@ -47,12 +47,12 @@ def _env():
 _BLOCK = re.compile(r"@!!BEGIN\n(.*?)@!!END", re.S)
 
 
-def run_tlapm(workdir, module, threads=8, fp=None, timeout=6000):
+def run_tlapm(workdir, module, threads=8, fp=None, timeout=6000, stretch=3):
     """Prove <module>.tla in workdir.  fp=None: from scratch (empty fingerprint cache);
     fp=<file>: obligations whose fingerprint is in <file> (proved by an earlier from-scratch
     run) are accepted, every other obligation is proved again.  Returns a dict."""
     shutil.rmtree(os.path.join(workdir, ".tlacache"), ignore_errors=True)
-    cmd = [TLAPM, "--stretch", "3", "--threads", str(threads), "--toolbox", "0", "0"]
+    cmd = [TLAPM, "--stretch", str(stretch), "--threads", str(threads), "--toolbox", "0", "0"]
     if fp:
         shutil.copy(fp, os.path.join(workdir, "stored.fp"))
         cmd += ["--usefp", "stored.fp"]         # (--cleanfp would discard them again)
@@ -60,7 +60,7 @@ def run_tlapm(workdir, module, threads=8, fp=None, timeout=6000):
         cmd += ["--cleanfp"]
     cmd += [module + ".tla"]
     t0 = time.time()
-    with tlc._Slots(2):
+    with tlc._Slots(1):
         t0 = time.time()
         p = subprocess.run(cmd, cwd=workdir, env=_env(), stdout=subprocess.PIPE, stderr=subprocess.STDOUT,
                            text=True, errors="replace", timeout=timeout)
@@ -96,7 +96,8 @@ def run_tlapm(workdir, module, threads=8, fp=None, timeout=6000):
     for oid, s in backend[:: max(1, len(backend) // 3)][:3]:
         ln = int(s["loc"].split(":")[0])
         samples.append("%s.tla:%d [%s] %s" % (module, ln, s["prover"], lines[ln - 1].strip()[:110]))
-    return {"module": module, "cmd": " ".join(cmd), "rc": p.returncode, "obligations": total, "proved": proved,
+    theorems = re.findall(r"^(?:THEOREM|LEMMA) (\w+) ==", "\n".join(lines), re.M)
+    return {"module": module, "theorems": theorems, "cmd": " ".join(cmd), "rc": p.returncode, "obligations": total, "proved": proved,
             "all_proved": bool(m_all) and p.returncode == 0 and proved == total and not failed,
             "cached": sum(1 for s in status.values() if s["cached"]), "by_backend": by, "failed": failed,
             "fingerprints": os.path.join(workdir, ".tlacache", module + ".tlaps", "fingerprints"),
@@ -171,10 +172,10 @@ def apalache_jobs(tier):
 
 REFINEMENTS = {
     "quick": [("MC_WriterAdmissionRef", "MC_WriterAdmissionRef_quick.cfg"),
-              ("MC_WriterAdmissionRef", "MC_WriterAdmissionRef_quick2.cfg"),
               ("MC_WriterAdmissionAbs", "MC_WriterAdmissionAbs_quick.cfg"),
               ("MC_VersionedZoneRef", "MC_VersionedZoneRef_quick.cfg")],
     "thorough": [("MC_WriterAdmissionRef", "MC_WriterAdmissionRef_quick.cfg"),
+                 ("MC_WriterAdmissionRef", "MC_WriterAdmissionRef_quick2.cfg"),
                  ("MC_WriterAdmissionRef", "MC_WriterAdmissionRef_thorough.cfg"),
                  ("MC_WriterAdmissionRef", "MC_WriterAdmissionRef_thorough3.cfg"),
                  ("MC_WriterAdmissionAbs", "MC_WriterAdmissionAbs_thorough.cfg"),
@@ -228,7 +229,7 @@ def prove_all(ctx, specdir, tier, refinements=True, use_fp=None):
         if refinements:
             for mod, cfg in REFINEMENTS[tier]:
                 path = os.path.join(specdir, mod + ".tla")
-                ctx.model(path, os.path.join(specdir, cfg), workers=4 if tier == "quick" else 8, timeout=7200)
+                ctx.model(path, os.path.join(specdir, cfg), workers=1 if tier == "quick" else 8, timeout=7200)
         tl = [f.result() for f in fut_t]
         ap = [f.result() for f in fut_a]
     return tl, ap
@@ -275,7 +276,7 @@ def run(ctx):
             "TLC 1.8: refinement VersionedZone => VersionedZoneAbs on bounded instances only (RECURSIVE Prune is outside "
             "TLAPS and Apalache); the refinement WriterAdmission => WriterAdmissionAbs is PROVED (TLAPS) and re-checked by TLC",
             "the correspondence WriterAdmission.tla / VersionedZone.tla <-> dns.versioned is what C12 / C11 establish by trace validation"],
-        "tlaps": [{k: r[k] for k in ("module", "obligations", "proved", "by_backend", "cached", "wall_s")} for r in tl],
+        "tlaps": [{k: r[k] for k in ("module", "theorems", "obligations", "proved", "by_backend", "cached", "wall_s")} for r in tl],
         "apalache_runs": [{k: r[k] for k in ("tag", "cmd", "expect", "got", "wall_s")} for r in ap],
         "tlaps_mode": "from scratch" if ctx.tier == "thorough" else "re-check against the fingerprints of the last "
                       "from-scratch run (specs/x04_fp); obligations without a matching fingerprint are proved again",
